@@ -10,7 +10,7 @@ def check(ctx):
                        "as tuple) / name a local bound to the manager when there is no target; supported forms may not be dropped")
     ctx.assume("the static leg of the property (every with statement of the standard library, unexecuted) has no behaviour to "
                "replay and is not claimed (DESIGN.md section 6)")
-    m7.explore(ctx, "suspended", 60, 1500, seed_off=8, targets=True, accept=lambda mm: bool(mm.get("meta")))
+    m7.explore(ctx, "suspended", 60, 1500, seed_off=8, targets=True, accept=lambda mm: bool(mm.get("meta")), quick_stride=2)
     import json
     ev = ctx.extra.get("per_interpreter", {})
     if not all(v["meta_checked"] > 0 for v in ev.values()):
